@@ -6,7 +6,7 @@
 // `sharding` case of configuration.NewBlobAccessFromConfiguration:
 //
 //   - selector-relations: every shard map over keys {a..e} x weights
-//     {1,2,7,2^32-1} with <=4 (quick) / <=5 (thorough) shards, every permutation,
+//     {1,2,7,1000,2^20,2^32-1} with <=4 (quick) / <=5 (thorough) shards, every permutation,
 //     every single removal, every single addition, x a structured hash set
 //     (generic boundary values, pre-images that put the mixed value of each shard
 //     on every boundary of the log2 table, hashes at which two shards tie).
